@@ -54,6 +54,78 @@ async fn trial(log: &Log, r: &mut Rng, server: &str, i: u64) {
     let _ = tokio::time::timeout(Duration::from_secs(2), sess.close()).await;
 }
 
+// ---------------------------------------------------------------------------------------------
+// C09 at the front-ends: the TLS connection of a session is cut while application connections are
+// open behind the SOCKS5 / HTTP listeners (idle, reading, writing): every one of them must be ended.
+async fn cut_pump(mut r: tokio::net::tcp::OwnedReadHalf, mut w: tokio::net::tcp::OwnedWriteHalf, cut: std::sync::Arc<std::sync::atomic::AtomicBool>) {
+    use tokio::io::{AsyncReadExt, AsyncWriteExt};
+    let mut buf = vec![0u8; 16384];
+    loop {
+        let n = tokio::select! { x = r.read(&mut buf) => match x { Ok(n) if n > 0 => n, _ => break }, _ = async { while !cut.load(std::sync::atomic::Ordering::SeqCst) { tokio::time::sleep(Duration::from_millis(5)).await; } } => break };
+        if w.write_all(&buf[..n]).await.is_err() { break; }
+    }
+}
+
+async fn cut_trial(log: &Log, r: &mut Rng, server: &str, i: u64) {
+    use std::sync::atomic::{AtomicBool, Ordering};
+    use tokio::io::{AsyncReadExt, AsyncWriteExt};
+    let cut = std::sync::Arc::new(AtomicBool::new(false));
+    let l = tokio::net::TcpListener::bind("127.0.0.1:0").await.unwrap();
+    let raddr = l.local_addr().unwrap().to_string();
+    let (c2, up) = (cut.clone(), server.to_string());
+    tokio::spawn(async move { loop {
+        let Ok((c, _)) = l.accept().await else { break };
+        let Ok(u) = tokio::net::TcpStream::connect(&up).await else { continue };
+        let (cr, cw) = c.into_split(); let (ur, uw) = u.into_split();
+        tokio::spawn(cut_pump(cr, uw, c2.clone())); tokio::spawn(cut_pump(ur, cw, c2.clone()));
+    } });
+    let pool = SessionPoolConfig { check_interval: Duration::from_secs(30), idle_timeout: Duration::from_secs(60), min_idle_sessions: 1 };
+    let client = net::make_client(&raddr, net::PASSWORD, PaddingFactory::default(), pool);
+    let socks = net::start_socks5(client.clone()).await;
+    let http = net::start_http(client.clone()).await;
+    let echo = net::start_target("127.0.0.1:0", TargetMode::Echo).await;
+    let mut conns = Vec::new();
+    for _ in 0..r.range(1, 3) {
+        let via = if r.chance(1, 2) { "socks5" } else { "http" };
+        let front = if via == "socks5" { socks.clone() } else { http.clone() };
+        if let Some(mut c) = super::close::connect_via(via, &front, echo.addr).await {
+            let _ = c.write_all(b"hello").await; let mut b = [0u8; 5];
+            let up = tokio::time::timeout(Duration::from_secs(3), c.read_exact(&mut b)).await.map(|x| x.is_ok()).unwrap_or(false);
+            conns.push((via, c, up, r.below(3)));
+        }
+    }
+    cut.store(true, Ordering::SeqCst);
+    let t0 = std::time::Instant::now();
+    let mut evs = Vec::new();
+    for (via, mut c, up, mode) in conns {
+        // idle reader / writer that keeps sending / half-closed reader
+        let ended = tokio::time::timeout(Duration::from_secs(4), async {
+            let mut buf = [0u8; 256];
+            match mode {
+                1 => loop { if c.write_all(&[7u8; 512]).await.is_err() { break true; } match tokio::time::timeout(Duration::from_millis(20), c.read(&mut buf)).await { Ok(Ok(0)) | Ok(Err(_)) => break true, _ => {} } },
+                2 => { let _ = c.shutdown().await; loop { match c.read(&mut buf).await { Ok(0) | Err(_) => break true, Ok(_) => {} } } }
+                _ => loop { match c.read(&mut buf).await { Ok(0) | Err(_) => break true, Ok(_) => {} } },
+            }
+        }).await.unwrap_or(false);
+        evs.push(json!({"ev": "cut", "via": via, "up": up, "mode": mode, "ended": ended, "ms": t0.elapsed().as_millis() as u64}));
+    }
+    evs.push(json!({"ev": "end", "panics": 0}));
+    log.block(json!({"kind": "cut", "i": i}), evs);
+    client.stop_session_pool_cleanup().await;
+}
+
+pub fn run_cut(args: &Args, log: &Log) -> Result<(), String> {
+    let thorough = args.tier == "thorough";
+    let mut r = Rng::new(args.seed ^ 0xc7);
+    let rt = net::rt();
+    rt.block_on(async {
+        let server = net::start_server(PaddingFactory::default()).await;
+        for i in 0..(if thorough { 150 } else { 16 }) { cut_trial(log, &mut r, &server, i).await; }
+    });
+    rt.shutdown_timeout(Duration::from_millis(200));
+    Ok(())
+}
+
 pub fn run(args: &Args, log: &Log) -> Result<(), String> {
     let thorough = args.tier == "thorough";
     let mut r = Rng::new(args.seed ^ 0x5a);
